@@ -99,6 +99,25 @@ func sizeChangeOf(c *Ctx, eng *effEngine, e recEdge) *scGraph {
 			sg.arcs[k] = strict
 		}
 	}
+	// cellParam: the parameter a local cell holds when the cell is only ever assigned that parameter (a
+	// parameter captured by a closure is spilled into such a cell at entry)
+	cellParam := func(al *ssa.Alloc) int {
+		idx, n := -1, 0
+		for _, ref := range *al.Referrers() {
+			if st, ok := ref.(*ssa.Store); ok && st.Addr == ssa.Value(al) {
+				n++
+				if p, ok := st.Val.(*ssa.Parameter); ok && p.Parent() == f {
+					idx = paramIndex(f, p)
+				} else {
+					return -1
+				}
+			}
+		}
+		if n != 1 {
+			return -1
+		}
+		return idx
+	}
 	formalIdx := func(v ssa.Value) int {
 		switch t := v.(type) {
 		case *ssa.Parameter:
@@ -111,8 +130,47 @@ func sizeChangeOf(c *Ctx, eng *effEngine, e recEdge) *scGraph {
 					return len(f.Params) + k
 				}
 			}
+		case *ssa.UnOp:
+			if t.Op == token.MUL {
+				switch x := t.X.(type) {
+				case *ssa.FreeVar:
+					for k, fv := range f.FreeVars {
+						if fv == x {
+							// the captured cell is read: its content is the captured variable unless this closure assigns it
+							for _, ref := range *x.Referrers() {
+								if st, ok := ref.(*ssa.Store); ok && st.Addr == ssa.Value(x) {
+									return -1
+								}
+							}
+							return len(f.Params) + k
+						}
+					}
+				case *ssa.Alloc:
+					return cellParam(x)
+				}
+			}
 		}
 		return -1
+	}
+	// a closure made here: what it captures keeps its size
+	if g.Parent() == f {
+		for _, b := range f.Blocks {
+			for _, in := range b.Instrs {
+				mc, ok := in.(*ssa.MakeClosure)
+				if !ok || mc.Fn != ssa.Value(g) {
+					continue
+				}
+				for k, bnd := range mc.Bindings {
+					if al, ok := bnd.(*ssa.Alloc); ok {
+						if i := cellParam(al); i >= 0 {
+							set(i, len(g.Params)+k, false)
+						}
+					} else if i := formalIdx(bnd); i >= 0 {
+						set(i, len(g.Params)+k, false)
+					}
+				}
+			}
+		}
 	}
 	if isScannerFn(c, f) && isScannerFn(c, g) && len(f.Params) > 0 && len(g.Params) > 0 {
 		// the scanner state: unread input never grows; a recursive descent first consumes the opening token
